@@ -68,7 +68,8 @@ var c11Docs = []string{
 	"query A($v:Int){...F o{...G}} query B($v:Int){o{...G} g(y:$v)} fragment F on Query{g(y:$v)} fragment G on Obj{g(x:$v, y:1)}",
 	"query A($v:Int=4){g(x:$v)} query B($v:Int){__type(name:\"Obj\"){name} g(x:$v)}",
 	"query A($v:Int){a:g(x:$v) b:g(y:$v)} query B($v:Int){h(list:[$v])}",
-	"query A($v:Int){hb(in:{a:$v c:1})} query B($v:Int){hb(in:{c:$v})}", // input type bound to a Go struct
+	"query A($v:Int){hb(in:{a:$v c:1})} query B($v:Int){hb(in:{c:$v})}",     // input type bound to a Go struct
+	"query A($v:Int){g(x:$v zz:1)} query B($v:Int){o{g(zz:$v)} s(x:\"k\")}", // an invalid request must stay invalid
 }
 
 // C11_repeat: resolving a parsed executable again - other variables, the
